@@ -340,6 +340,25 @@ def rule_r5(ctx, an: Anchors, gs: GenBranch, ga: GenBranch) -> None:
                 rep.check("C04.R5", call_nodes[0].id not in cfg.reach(hit_side, avoid=[ht.id]), f, ht.ast, "a hit returns without calling the factory", "the factory is reachable on the hit path")
 
 
+def rule_stored_before_return(ctx, an: Anchors, gs: GenBranch, ga: GenBranch, rule: str) -> None:
+    """Every normal path from the factory call to a return passes the store: a generated
+    object that is handed out is always the one later lookups will find."""
+    rep = ctx.rep
+    for g in (gs, ga):
+        cfg = ctx.a.cfg(g.f)
+        cn = cfg.nodes_containing(g.call)
+        if not cn:
+            continue
+        stores = [n.id for n, _ in g.stores]
+        # a store inside `for t in factory.types` is represented by the loop head (the
+        # zero-iteration path is infeasible: a factory always has at least one type)
+        for _, m in g.stores:
+            for it, tgt, loopnode in enclosing_loops(g.f, m.node):
+                stores += [x.id for x in cfg.live_nodes() if x.kind == "for_next" and x.ast is loopnode]
+        ok = cfg.all_paths_pass(cn[0].id, [cfg.exit], stores, edge_ok=lambda s_, d, lab: lab not in ("e", "h"))
+        rep.check(rule, ok, g.f, g.call, "every path that returns the factory's product has stored it in the context first", "some path returns the factory's product without storing it: the next lookup calls the factory again and returns a different object")
+
+
 def rule_r6(ctx, an: Anchors, gs: GenBranch, ga: GenBranch) -> None:
     rep = ctx.rep
     n = 0
@@ -364,4 +383,5 @@ def run(ctx) -> None:
         rule_r3(ctx, an, gs)
         rule_r5(ctx, an, gs, ga)
         rule_r6(ctx, an, gs, ga)
+        rule_stored_before_return(ctx, an, gs, ga, "C04.R5")
     c03.rule_r5(ctx, an, rule="C04.R4")
